@@ -1,5 +1,5 @@
 //! C11 — graph algorithms equal their textbook definitions on every graph.
-use crate::explore::history::{explore, Subject};
+use crate::explore::history::{explore_traced, Subject};
 use crate::report::{Acc, Describe};
 use crate::util::{guarded, panic_class};
 use crate::{Ctx, Prop};
@@ -821,7 +821,7 @@ fn run(ctx: &Ctx) -> Acc {
     let mut acc = Acc::new();
     // (b) edit histories: one worker (the last shard) runs the stateright search with a few threads
     if ctx.shard == ctx.nshards - 1 {
-        let a = explore(EditSubject, None, 4);
+        let a = explore_traced(EditSubject, None, 4, ctx.trace_path.as_deref());
         acc.merge(a);
         acc.count("traces", acc.get("stateright_unique_states"));
         acc.sample(json!({"history": [["insert_vertex",1],["insert_vertex",4],["insert_edge",1,4],["remove_vertex",4]], "checked": "all views + all algorithms from every root"}));
